@@ -155,7 +155,7 @@ void Lattice::addTerm(const Lattice::Term *T)
 const Lattice::Site& Lattice::getSite(const std::string& Label) const
 {
     std::map<std::string, Site*>::const_iterator it1=Sites.find(Label);
-    if (it1!=Sites.end()) throw (exWrongLabel());
+    if (it1==Sites.end()) throw (exWrongLabel());
     return *(it1->second);
 }
 
